@@ -98,6 +98,7 @@ def run(M, load, history, order):
     bad = []
     with orm.db_session:
         try:
+            list(M.Ref.select())          # the pointing rows are in the session: reaching an operand through them needs no query, so nothing is flushed between the operations
             if load in ('everything', 'males'): list(M.Male.select())
             if load in ('everything', 'females'): list(M.Female.select())
             if load in ('everything', 'cars'): list(M.Car.select())
